@@ -180,3 +180,31 @@ def _(u):
     same_tensor(u, "reset.vehicle_capacity", out["vehicle_capacity"], (B, 1), lambda b, _: cap, tags=("C01",))
     same_tensor(u, "reset.visited", out["visited"], (B, N + 1), lambda b, j: 0, tags=("C01",), dtype="i")
     u.prove("reset.inv", state_ok(u, out, B, N), tags=("C01", "C02"))
+
+
+@unit("cvrp.rowlocal", file=F, func="CVRPEnv._step", props=("C04",))
+def _(u):
+    N = u.dim("N")
+    env = u.obj(F, "CVRPEnv")
+
+    def mk_in(u, B):
+        td = state(u, B, N)
+        td.set("action", u.tensor("action", (B,), "i"))
+        return td
+
+    def req(u, td, B):
+        a = td["action"]
+        return AND(state_ok(u, td, B, N, mask_consistent=False), u.forall((B,), lambda b: AND(a.at(b) >= 0, a.at(b) <= N)))
+
+    from .envlib import rowlocal
+
+    rowlocal(u, "step", mk_in, lambda u, td: u.run(F, "CVRPEnv._step", td, selfobj=env), requires=req)
+
+
+@unit("cvrp.rowlocal.mask", file=F, func="CVRPEnv.get_action_mask", props=("C04",))
+def _(u):
+    N = u.dim("N")
+    from .envlib import rowlocal
+
+    rowlocal(u, "mask", lambda u, B: state(u, B, N), lambda u, td: u.run(F, "CVRPEnv.get_action_mask", td),
+             requires=lambda u, td, B: state_ok(u, td, B, N, mask_consistent=False))
